@@ -130,8 +130,10 @@ void FileGraph::fromMem(void* m, uint64_t node_offset, uint64_t edge_offset,
     else
       edgeData = 0;
   } else {
+    // version 2 stores 64-bit destinations, which never need padding to
+    // re-align the edge data (cf. rawBlockSize() and FileGraphWriter)
     uint64_t* fptr64 = (uint64_t*)fptr;
-    fptr64 += numEdges + numEdges % 2;
+    fptr64 += numEdges;
 
     if (!lenlimit || lenlimit > numEdges + ((char*)fptr64 - (char*)m))
       edgeData = (char*)fptr64;
